@@ -501,6 +501,13 @@ def _o_path_roundtrip(w):
     ok = ok and der_path.indexes_from_der_path(s, bip380_enforced=False) == p
     if p:
         ok = ok and der_path.indexes_from_der_path(s[2:], bip380_enforced=True) == p
+    # key origin (fingerprint + path): wire, bracket-text and json forms read back to the same object
+    from btclib.bip32.key_origin import BIP32KeyOrigin
+    fp = bytes.fromhex(w.get("fp", "deadbeef"))
+    o = BIP32KeyOrigin(fp, p)
+    ok = ok and BIP32KeyOrigin.parse(o.serialize()) == o and BIP32KeyOrigin.from_description(o.description) == o
+    ok = ok and BIP32KeyOrigin.from_dict(o.to_dict()) == o and list(o.der_path) == p
+    ok = ok and o.serialize() == fp + der_path.bytes_from_der_path(p)
     return ok, s[:80]
 
 
@@ -833,7 +840,7 @@ def run(ctx):
         for _ in range(ctx.n(150, 3000)):
             p = [rand_index(rng) for _ in range(rng.choice([0, 1, 2, 3, 5, 12]))]
             hsym = rng.choice(["h", "'"])
-            ctx.check("path.roundtrip", {"p": p, "h": hsym})
+            ctx.check("path.roundtrip", {"p": p, "h": hsym, "fp": common.rand_bytes(rng, 4).hex()})
             lines.append(f"path.str {ptok(p)} {hx(rng.choice(['h', chr(39), 'H', '', 'hh', 'x']).encode())}")
             lines.append(f"path.bytes {ptok(p + ([2**32] if rng.random() < 0.1 else []))}")
             b = der_path.bytes_from_der_path(p) + common.rand_bytes(rng, rng.choice([0, 0, 0, 1, 2, 4]))
@@ -845,7 +852,8 @@ def run(ctx):
         # boundary: 2^31-1 / 2^31 as plain numbers and with markers, long paths around the 255 cap
         for s in ["m", "", "/", "m/", "M", "m/m", "2147483647", "2147483648", "2147483647h", "2147483648h", "m/0h/0'/0H",
                   "m/-0", "m/+1", "m/1_0", "m/1__0", "m/_1", "m/1_", "m/ 1 /2", "m/0x10", "m/١", "m/h", "m/'",
-                  "/".join(["m"] + ["0"] * 255), "/".join(["m"] + ["0"] * 256), "/".join(["0"] * 256), "0/m", "m/0 h", "m/0h "]:
+                  "/".join(["m"] + ["0"] * 255), "/".join(["m"] + ["0"] * 256), "/".join(["0"] * 256), "0/m", "m/0 h", "m/0h ",
+              "m/5\x1ch", "m/\x1c5", "m/5\x1c", "m/5\xa0h", "m/\x855'", "m/5\x1f/1", "m/ \x1d 7 \x1e"]:
             try:
                 b = s.encode("latin-1")
             except UnicodeEncodeError:
